@@ -83,7 +83,9 @@ pub fn clock_program<F: Family>(idx: usize, prog: &Program<F>, mode: &Mode) -> P
                         }
                     }
                     GOp::Join(c) => {
-                        if let Some(j) = (0..m).find(|&j| log[ev[j]].thread == *c && log[ev[j]].kind == EKind::End) {
+                        // the joined task's end — or, for a cancelled task, the last thing it did
+                        let end = (0..m).find(|&j| log[ev[j]].thread == *c && log[ev[j]].kind == EKind::End).or_else(|| (0..i).rev().find(|&j| log[ev[j]].thread == *c));
+                        if let Some(j) = end {
                             must.push((j, i));
                             may[j][i] = true;
                         }
@@ -176,6 +178,24 @@ pub fn clock_program<F: Family>(idx: usize, prog: &Program<F>, mode: &Mode) -> P
                     format!(
                         "{:?} of thread {} (clock {:?}) happens before {:?} of thread {} (clock {:?}) but the second clock does not dominate the first",
                         a.kind, a.thread, a.clock, b.kind, b.thread, b.clock
+                    ),
+                );
+            }
+        }
+        for (srcs, tgt) in F::hb_must_any(prog, &log) {
+            if srcs.is_empty() {
+                continue;
+            }
+            let b = &log[tgt];
+            if !srcs.iter().any(|a| dominates(&b.clock, &log[*a].clock)) {
+                complain(
+                    "happens-before-not-reflected",
+                    format!(
+                        "{:?} of thread {} (clock {:?}) must have been released by one of {:?} but its clock dominates none of their clocks",
+                        b.kind,
+                        b.thread,
+                        b.clock,
+                        srcs.iter().map(|a| (log[*a].thread, log[*a].clock.clone())).collect::<Vec<_>>()
                     ),
                 );
             }
